@@ -142,29 +142,7 @@ def run(ctx):
         uplinks.queued_flag_discipline(r, ctx)
 
     with ctx.rule("C01.R6", "T4+T1", "ValueBackpressure.current is only overwritten by push_bytes and handed over by prepare_write (swap before clear)", floor=3) as r:
-        VB = "backpressure::ValueBackpressure"
-        for b in rt.all_bodies():
-            for c in b.calls:
-                if not c.args:
-                    continue
-                p = c.arg_path(0)
-                touched = [a for a in c.args if a[0] in ("c", "m") and b.resolve(a[1]).has_field(VB, "current")]
-                if not touched:
-                    continue
-                if c.name in ("is_empty", "len", "as_ref", "deref") or b.meta.get("name") == "fmt":
-                    continue
-                ctx.saw(b)
-                nm = b.meta.get("name")
-                r.check(nm in ("push_bytes", "prepare_write") and ("ValueBackpressure" in b.defpath), "current-access/%s/%s" % (nm, c.name), c.loc(), "current.%s in %s" % (c.name, nm),
-                        "ValueBackpressure.current modified in %s (%s)" % (b.defpath, c.name))
-        pw = rt.fn(name="prepare_write", self_adt=VB)
-        swp = [c for c in pw.calls if c.name == "swap"]
-        clr = [c for c in pw.calls if c.name == "clear"]
-        r.check(len(swp) == 1 and len(clr) == 1 and pw.dominates(swp[0].block, clr[0].block) and describe_operand(pw, clr[0].args[0]).endswith(".current"), "prepare_write/swap-before-clear", where(pw),
-                "the pending value is swapped into the output buffer before current is cleared", "prepare_write clears before swapping (the value is lost) or clears the output buffer")
-        pb = rt.fn(name="push_bytes", self_adt=VB)
-        seq = [c.name for c in pb.calls if c.args and describe_operand(pb, c.args[0]).endswith("current")]
-        r.check(seq[:1] == ["clear"] and "put" in seq, "push_bytes/overwrite", where(pb), "push_bytes replaces the not-yet-sent value (%s)" % seq, "push_bytes does %s" % seq)
+        uplinks.value_backpressure_rules(r, ctx)
 
     with ctx.rule("C01.R7", "T11", "the remote's writer token is handed back or becomes exactly one WriteTask; completed writes re-arm the remote", floor=8) as r:
         uplinks.writer_token(r, ctx)
